@@ -18,7 +18,8 @@ def footer(size: int, data_offset: int, disk_type: int, uid: bytes, legacy: bool
     return body[:511] if legacy else body
 
 
-def build_fixed(rng, *, nsectors: int, legacy: bool = False, tag: int = 1, kind: int = 0, nested: str | None = None):
+def build_fixed(rng, *, nsectors: int, legacy: bool = False, tag: int = 1, kind: int = 0, nested: str | None = None, orig_size=None,
+                uid: bytes | None = None):
     """nested: guest content that itself starts like a VHD ('dynamic' footer copy / 'fixed' footer) at LBA 0."""
     size = nsectors * SECTOR
     layer = Layer(size, max(nsectors, 1), tag, kind, default=D)
@@ -31,18 +32,18 @@ def build_fixed(rng, *, nsectors: int, legacy: bool = False, tag: int = 1, kind:
                 layer.override[1], layer.override[2] = dh[:512], dh[512:]
         else:
             layer.override[0] = footer(size // 2, 0xFFFFFFFFFFFFFFFF, 2, inner_uid)
-    uid = bytes(rng.randrange(256) for _ in range(16))
+    uid = uid or bytes(rng.randrange(256) for _ in range(16))
     sf = SparseFile()
     if nsectors:
         sf.put(0, PatternGen(layer, 0, nsectors))
-    sf.put(size, footer(size, 0xFFFFFFFFFFFFFFFF, 2, uid, legacy=legacy))
+    sf.put(size, footer(size, 0xFFFFFFFFFFFFFFFF, 2, uid, legacy=legacy, orig_size=orig_size))
     meta = {"size": size, "uid": uid.hex(), "legacy": legacy, "metadata_bytes": 512}
     return sf, layer, meta
 
 
 def build_dynamic(rng, *, block_size: int, nblocks: int, tail_cut_sectors: int = 0, states=None,
                   placement: str = "shuffle", tag: int = 1, kind: int = 0, bitmaps: str = "ones",
-                  header_off: int = 512, table_gap: int = 0, extra_entries: int = 0, far_sector: int = 0):
+                  header_off: int = 512, table_gap: int = 0, extra_entries: int = 0, far_sector: int = 0, orig_size=None, uid: bytes | None = None):
     """states[i] in {'A','U'}; bitmaps in ones|random|zeros (data under 0 bits is stored as zeros)."""
     spb = block_size // SECTOR
     size = nblocks * block_size - tail_cut_sectors * SECTOR
@@ -91,9 +92,9 @@ def build_dynamic(rng, *, block_size: int, nblocks: int, tail_cut_sectors: int =
         if far_cursor < top:
             j = max(pos, key=lambda k: pos[k])
             pos[j] = top
-    uid = bytes(rng.randrange(256) for _ in range(16))
+    uid = uid or bytes(rng.randrange(256) for _ in range(16))
     sf = SparseFile()
-    ft = footer(size, header_off, 3, uid)
+    ft = footer(size, header_off, 3, uid, orig_size=orig_size)
     sf.put(0, ft)
     dh = struct.pack(">8sQQIIII", b"cxsparse", 0xFFFFFFFFFFFFFFFF, table_off, 0x00010000, max_entries, block_size, 0)
     dh += b"\0" * 16 + struct.pack(">II", 0, 0) + b"\0" * 512 + b"\0" * (8 * 24) + b"\0" * 256
